@@ -3,20 +3,12 @@
      adv  rb m  -- consume m bytes at the read cursor
      put1 rb d  -- store the bytes d contiguously at the write cursor *)
 From Coq Require Import Lia ZArith ZifyBool List Bool.
-From GV Require Import Lib.Trace Model.Arith Model.Ring Spec.Fifo Proofs.FifoLemmas.
+From GV Require Import Lib.Trace Model.Arith Model.Ring Spec.Fifo Spec.RingSpec Proofs.FifoLemmas.
 Import ListNotations.
 Open Scope Z_scope.
 
-(* ---- invariant and abstraction ---- *)
-Definition ring_inv (rb : ring) : Prop :=
-  zlen (buf rb) = size rb /\ 0 <= r rb /\ 0 <= w rb /\
-  (is_empty rb = true -> r rb = 0 /\ w rb = 0) /\
-  (is_empty rb = false -> r rb < size rb /\ w rb < size rb).
-
-Definition content (rb : ring) : list Z :=
-  if is_empty rb then [] else
-  if r rb <? w rb then ztake (w rb - r rb) (zdrop (r rb) (buf rb))
-  else zdrop (r rb) (buf rb) ++ ztake (w rb) (buf rb).
+(* the invariant [ring_inv] and the abstraction function [content] are part of
+   the statements and live in Spec/RingSpec.v *)
 
 Ltac bdestr :=
   match goal with
